@@ -69,7 +69,7 @@ pub(super) fn validate_field(
                     super::value::validate_values(
                         diagnostics,
                         schema,
-                        &arg_definition.ty,
+                        arg_definition,
                         argument,
                         context.variables,
                     );
